@@ -5,6 +5,7 @@
        new:<hex>                    the caller allocates a buffer (caller buffer #k, k counts up)
        write:<cv>:<i>:<v>           the caller overwrites element i of its buffer cv
        construct:<cv,cv,..>         a constructor is called with those buffers (object #o counts up)
+       constructm:<cv,cv,..>        the same for a data message (body with a lazy, unfired encode memo)
        decode:<cv>:<A|T>:<skip>:<hl>    a copying decode entry point
        owned:<cv>:<A|T>:<skip>:<hl>     an ownership-transferring decode entry point
        get:<o>:<g>                  an accessor/serialiser returned a slice/array (new caller buffer)
@@ -44,9 +45,9 @@ let check _ln line =
         match String.split_on_char ':' tok with
         | ["new"; h] -> st := step !st (ONew (zbytes_of_hex h))
         | ["write"; cv; i; v] -> st := step !st (OWrite (ni cv, ni i, z_of_string v))
-        | ["construct"; cvs] | ["constructm"; cvs] ->
+        | [("construct" | "constructm") as kw; cvs] ->
           let l = if cvs = "" then [] else List.map ni (String.split_on_char ',' cvs) in
-          st := step !st (OConstruct l); note_new_objects ()
+          st := step !st (OConstruct (l, kw = "constructm")); note_new_objects ()
         | ["decode"; cv; k; skip; hl] -> st := step !st (ODecode (ni cv, kind_of k, ni skip, ni hl)); note_new_objects ()
         | ["owned"; cv; k; skip; hl] -> st := step !st (ODecodeOwned (ni cv, kind_of k, ni skip, ni hl)); note_new_objects ()
         | ["get"; o; g] -> st := step !st (OGet (ni o, ni g))
